@@ -5,6 +5,54 @@ import "time"
 // Minimise shrinks a choice stream by delta debugging while try() keeps
 // reporting the same violation. try returns the normalised stream the run
 // actually consumed (may be shorter) and whether the violation recurred.
+// KindsOf, when set by the caller, returns the kind of every entry of a stream the run consumed last
+// (parallel to the normalised stream returned by try); it enables the kind-wise passes.
+type Run func([]uint32) (norm []uint32, kinds []uint8, ok bool)
+
+// MinimiseKinds first tries to switch whole fault kinds off (all choices of a kind -> the boring value),
+// which removes irrelevant faults and preemptions from the trace wholesale, then runs Minimise.
+func MinimiseKinds(start []uint32, run Run, order []uint8, deadline time.Time, maxTries int) (best []uint32, tried int) {
+	cur := append([]uint32(nil), start...)
+	norm, kinds, ok := run(cur)
+	tried++
+	if !ok {
+		return start, tried
+	}
+	if norm != nil {
+		cur = append([]uint32(nil), norm...)
+	}
+	for _, k := range order {
+		if time.Now().After(deadline) || tried >= maxTries {
+			break
+		}
+		c := append([]uint32(nil), cur...)
+		changed := false
+		for i := range c {
+			if i < len(kinds) && kinds[i] == k && c[i] != 0 {
+				c[i] = 0
+				changed = true
+			}
+		}
+		if !changed {
+			continue
+		}
+		n2, k2, ok := run(c)
+		tried++
+		if ok {
+			cur = c
+			if n2 != nil {
+				cur = append([]uint32(nil), n2...)
+			}
+			kinds = k2
+		}
+	}
+	b, t := Minimise(cur, func(ch []uint32) ([]uint32, bool) {
+		n, _, ok := run(ch)
+		return n, ok
+	}, deadline, maxTries-tried)
+	return b, tried + t
+}
+
 func Minimise(start []uint32, try func([]uint32) ([]uint32, bool), deadline time.Time, maxTries int) (best []uint32, tried int) {
 	trim := func(ch []uint32) []uint32 {
 		n := len(ch)
